@@ -300,7 +300,9 @@ package common
 //@   ensures [C11,C03] mem: atoiOk(port) ==> (res == (conn.AllowAll || (exists q v1.Protocol :: q in conn.AllowedProtocols && foldEq(protocol, q)
 //@         && iset(conn.AllowedProtocols[q].Ports)[atoiVal(port)])))
 //@   ensures [C11,C03] bad: !atoiOk(port) ==> !res
+//@   ensures [C11,C10] kept: allKept()
 //@   loop 1:
+//@     invariant kept: allKept()
 //@     invariant sub: forall q v1.Protocol :: {seen(q)} seen(q) ==> (q in conn.AllowedProtocols && !foldEq(protocol, q))
 
 //@ func (*ConnectionSet).ContainedIn
